@@ -86,6 +86,7 @@ func (kt *kindTable) decodeOutcomes(k int64, nullable bool) []decodeOutcome {
 func checkC06(p *Prog, r *Report) {
 	r.rule("R2 integer decoding (scenario evaluation of Attr.UnmarshalToType, one scenario per integer kind x nullable): the stored value is parser(string(data), 10, B) converted to the kind's Go type of width W with the parser's signedness equal to the kind's and B <= W, so no accepted literal is truncated or reinterpreted (B >= W is C01's obligation); widths are those of the GOARCH under analysis")
 	r.rule("C06.bool: a boolean attribute's value is a constant decided by comparing the raw bytes with the literals true and false only")
+	r.rule("C06.to-many-emission: the loop of MarshalResource that writes a to-many relationship's identifiers extends the list on every iteration (re-marshaling reproduces every listed ID, repeated ones included)")
 	r.rule("C06.null-gate: for a non-nullable kind no successful path exists on which the raw value was found to be the literal null (encoding/json treats null as a no-op, so such a path stores the zero value); for a nullable kind that path returns the kind's nil pointer")
 	r.rule("C06.decode-call: string, time and bytes values are produced by encoding/json.Unmarshal(data, &v) into the very variable whose value (or address) is returned")
 	r.rule("C06.fresh-linkage: the Identifier / Identifiers variable a relationship's data is decoded into is declared inside the loop over the payload's relationships (zeroed per relationship), so a null or id-less linkage cannot inherit the previous relationship's IDs")
@@ -212,6 +213,8 @@ func checkC06(p *Prog, r *Report) {
 	r.floor("integer decode scenarios", nInt, 20)
 
 	checkUnmarshalPlumbing(p, r, "C06")
+	// re-marshaling reproduces the relationship linkage: every ID is written
+	checkToManyEmission(p, r, "C06")
 }
 
 // checkUnmarshalPlumbing: shared by C01 and C06.
